@@ -279,26 +279,21 @@ impl<'a> Lexer<'a> {
     /// Moves pos to after the found `substr`. Returns Substr with traversed text if `substr` is found.
     #[allow(dead_code)]
     pub fn seek_substr(&mut self, substr: impl AsRef<[u8]>) -> Option<Substr<'a>> {
-        //
         let substr = substr.as_ref();
         let start = self.pos;
-        let mut matched = 0;
-        loop {
-            if self.pos >= self.buf.len() {
-                return None
+        let found = self.buf.get(start..)
+            .and_then(|rest| rest.windows(substr.len()).position(|w| w == substr));
+        match found {
+            Some(offset) => {
+                self.pos = start + offset + substr.len();
+                Some(self.new_substr(start..(self.pos - substr.len())))
             }
-            if self.buf[self.pos] == substr[matched] {
-                matched += 1;
-            } else {
-                matched = 0;
+            None => {
+                // as before: a failed search leaves the lexer at the end of the buffer
+                self.pos = self.pos.max(self.buf.len());
+                None
             }
-            if matched == substr.len() {
-                break;
-            }
-            self.pos += 1;
         }
-        self.pos += 1;
-        Some(self.new_substr(start..(self.pos - substr.len())))
     }
 
     //TODO perhaps seek_substr_back should, like back(), move to the first letter of the substr.
